@@ -138,3 +138,26 @@ Example ex_ld_at_wake :
   | None => False
   end.
 Proof. vm_compute. eexists. split; reflexivity. Qed.
+
+(* the hypotheses of C11_eventually (b) hold in a non-trivial state: thread 0 reads, thread 1 asks to read *)
+Definition s_reader_and_requester := st_of (RwLockCond.run [0;0;0;0] (RwLockCond.init [[rd];[rd]])).
+Example ex_cond_eventually_applies :
+  reachable s_reader_and_requester /\ readers_in_cs s_reader_and_requester = 1 /\
+  thr_at s_reader_and_requester 1 (Th A_Lock R 0 [] LNone) /\ requesting_pc A_Lock = true /\
+  not_excluded s_reader_and_requester 1 R /\ mutex (glob s_reader_and_requester) = None.
+Proof.
+  split; [eapply (run_reachable [[rd];[rd]] [0;0;0;0]); vm_compute; reflexivity|].
+  split; [vm_compute; reflexivity|]. split; [vm_compute; reflexivity|]. split; [reflexivity|]. split; [|vm_compute; reflexivity].
+  intros u thu Hu Hne. destruct u as [|[|u]].
+  - vm_compute in Hu. inversion Hu; subst. reflexivity.
+  - congruence.
+  - vm_compute in Hu. destruct u; discriminate.
+Qed.
+
+(* ... while a writer that asks at the same moment IS excluded (by the reader), so nothing is promised to it yet *)
+Example ex_cond_writer_excluded :
+  match RwLockCond.run [0;0;0;0] (RwLockCond.init [[rd];[wr]]) with
+  | Some s => exists th, nth_error (thr s) 0 = Some th /\ excludes W th = true
+  | None => False
+  end.
+Proof. vm_compute. eexists. split; reflexivity. Qed.
